@@ -90,6 +90,57 @@ fn pick_ks(n: u64, range: Option<(u64, u64)>, r: &mut Rng) -> Vec<u64> {
     }
 }
 
+/// The archive a writer finished successfully AFTER one of its calls had reported an I/O error: structure
+/// (end records, directory, local/central agreement, extents; payload decoding is not judged - the failed
+/// call may have been a data write) and no entry whose creating call returned an error.
+fn after_error_archive(st: &Shared, ops: &[Op], out: &ExecOut, sched: &str) -> Option<Verdict> {
+    let img = image_of(st);
+    let p = match crate::indep::parse(&img) {
+        Ok(p) => p,
+        Err(e) => return Some(viol("C02/invalid-after-io-error", format!("finish() reported success after an earlier I/O error, but the bytes do not parse: {e} || {sched}"))),
+    };
+    if crate::indep::ambiguous(img.as_slice(), &p).is_some() {
+        return None;
+    }
+    let none = |_: usize| None;
+    let all = |_: usize| true;
+    let no = |_: usize| false;
+    let vo = crate::indep::ValidateOpts { passwords: &none, allow_gaps: true, decode_limit: 0, skip_decode: &all, relax_entry: &no };
+    let bad = crate::indep::validate(img.as_slice(), &p, &vo);
+    if !bad.is_empty() {
+        return Some(viol("C02/invalid-after-io-error", format!("finish() reported success after an earlier I/O error, but the archive is not self-consistent: {} || {sched}", bad.iter().take(3).cloned().collect::<Vec<_>>().join("; "))));
+    }
+    // names created successfully / unsuccessfully
+    let mut ok_names: Vec<String> = vec![];
+    let mut failed_names: Vec<String> = vec![];
+    for (op, stp) in ops.iter().zip(out.steps.iter()) {
+        let name = match op {
+            Op::StartFile { name, .. } | Op::StartAligned { name, .. } | Op::StartExtra { name, .. } | Op::AddSymlink { name, .. } => name.clone(),
+            Op::AddDir { name, .. } => {
+                if name.ends_with('/') || name.ends_with('\\') {
+                    name.clone()
+                } else {
+                    format!("{name}/")
+                }
+            }
+            Op::RawCopy { .. } => return None, // names come from another archive: not judged here
+            _ => continue,
+        };
+        if stp.res.is_ok() {
+            ok_names.push(name);
+        } else {
+            failed_names.push(name);
+        }
+    }
+    for c in &p.centrals {
+        let n = String::from_utf8_lossy(&c.name).into_owned();
+        if failed_names.contains(&n) && !ok_names.contains(&n) {
+            return Some(viol("C12/failed-entry-listed", format!("finish() reported success, and the archive lists {n:?} although the call that created it returned an error || {sched}")));
+        }
+    }
+    None
+}
+
 impl Scenario for IoFault {
     fn name(&self) -> &'static str {
         "iofault"
@@ -257,6 +308,18 @@ impl Scenario for IoFault {
                         let any_err = out.steps.iter().any(|s| !s.res.is_ok()) || out.final_res.as_ref().map(|r| !r.is_ok()).unwrap_or(false);
                         if any_err && !any_err0 {
                             ctx.probe("error_reported");
+                            // C02 / C12 under faults: an error was reported, the caller carried on, and finish()
+                            // reported success. Then the bytes are an archive the writer vouches for: it must be
+                            // structurally sound, and an entry whose creating call FAILED must not be listed.
+                            let finish_ok = out.final_res.as_ref().map(|r| r.is_ok()).unwrap_or(false);
+                            let single = !c.pair && !matches!(d, Decision::Sticky(_));
+                            let stale = stale0 || out.lives.iter().any(|(app, end, len)| *app && end < len);
+                            if finish_ok && single && !on_src && base_img.is_none() && !stale && model_ok {
+                                ctx.probe("finish_succeeded_after_a_reported_error");
+                                if let Some(v) = after_error_archive(&st, &ops, &out, &sched) {
+                                    return v;
+                                }
+                            }
                             continue;
                         }
                         if any_err0 {
